@@ -307,6 +307,8 @@ meta("C11", level="fault_enumeration",
           "all metrics (each panicking metric is handed over exactly once, never again), the sink keeps accepting, panics() at rest == number of EXIT(panic) (read after every panicked thread is gone); "
           + Q_CONC,
      assumptions=Q_ASSUME, exhaustive_scope="all ok/err/panic assignments up to the stated length in the three arrangements",
+     # a process that dies while a panic of the wrapped sink is being handled (abort in the sentinel) did not survive it
+     abort_is_violation=True,
      min_evaluations=1000, must_observe={"scripted_panics": 500, "panic_counts_checked": 200})
 meta("C15", level="exploration",
      rule="rule R7: at every rest point of every sequential history submitted == #Ok emits, drained == #ENTER, queued == difference (refused emits counted nowhere); under concurrency a sampler "
